@@ -26,7 +26,8 @@ def main():
     round7 = pid == "--round7"
     round8 = pid == "--round8"
     round9 = pid == "--round9"
-    round2 = pid in ("--round2", "--round3", "--round4", "--round5", "--round6", "--round7", "--round8", "--round9")
+    round10 = pid == "--round10"
+    round2 = pid in ("--round2", "--round3", "--round4", "--round5", "--round6", "--round7", "--round8", "--round9", "--round10")
     extra = sys.argv[4:]
     for n in range(1, 10):
         src = os.path.join(out, f"change{n}")
@@ -72,7 +73,7 @@ def main():
         notes = open(os.path.join(src, "notes.md")).read() if os.path.exists(os.path.join(src, "notes.md")) else ""
         meta = {
             "property": pid,
-            "origin": ("ninth round: as the eighth, for eight further properties (C03 C05 C08 C09 C11 C13 C17 C20), three changes each" if round9 else "eighth round: independent sub-agent given ONE property (one of the eight with the fewest stored changes), its own scratch worktree and the trigger descriptions of the earlier changes for that property; asked for subtle changes at other code sites and trigger conditions" if round8 else "seventh round: independent sub-agent assigned ONE FEATURE of the library to follow end to end, given all 20 property texts, its own scratch worktree and one-line summaries of the earlier changes" if round7 else "sixth round: independent sub-agent assigned a THEME (second set of themes), given all 20 property texts, its own scratch worktree and one-line summaries of the earlier changes" if round6 else "fifth round: independent sub-agent assigned a THEME (kind of fault), given all 20 property texts, its own scratch worktree and one-line summaries of the 151 earlier changes" if round5 else "fourth round: independent sub-agent assigned a set of FILES (those with few earlier changes), given all 20 property texts, its own scratch worktree and the summaries of earlier changes in those files" if round4 else "third round: independent sub-agent given the property texts, its own scratch worktree and the one-line summaries of the 75 earlier changes to avoid; asked for faults in indirectly used helpers, rarely taken branches or two cooperating sites" if round3 else "second round: independent sub-agent asked for subtle changes (rare values / shapes / call orders / cooperating sites), given only the property texts and its own scratch worktree" if round2 else "independent sub-agent given only the property text and its own scratch worktree of /repo (HEAD with all fix: commits)"),
+            "origin": ("tenth round: as the eighth and ninth, for the remaining four properties (C01 C02 C14 C16), three changes each" if round10 else "ninth round: as the eighth, for eight further properties (C03 C05 C08 C09 C11 C13 C17 C20), three changes each" if round9 else "eighth round: independent sub-agent given ONE property (one of the eight with the fewest stored changes), its own scratch worktree and the trigger descriptions of the earlier changes for that property; asked for subtle changes at other code sites and trigger conditions" if round8 else "seventh round: independent sub-agent assigned ONE FEATURE of the library to follow end to end, given all 20 property texts, its own scratch worktree and one-line summaries of the earlier changes" if round7 else "sixth round: independent sub-agent assigned a THEME (second set of themes), given all 20 property texts, its own scratch worktree and one-line summaries of the earlier changes" if round6 else "fifth round: independent sub-agent assigned a THEME (kind of fault), given all 20 property texts, its own scratch worktree and one-line summaries of the 151 earlier changes" if round5 else "fourth round: independent sub-agent assigned a set of FILES (those with few earlier changes), given all 20 property texts, its own scratch worktree and the summaries of earlier changes in those files" if round4 else "third round: independent sub-agent given the property texts, its own scratch worktree and the one-line summaries of the 75 earlier changes to avoid; asked for faults in indirectly used helpers, rarely taken branches or two cooperating sites" if round3 else "second round: independent sub-agent asked for subtle changes (rare values / shapes / call orders / cooperating sites), given only the property texts and its own scratch worktree" if round2 else "independent sub-agent given only the property text and its own scratch worktree of /repo (HEAD with all fix: commits)"),
             "needs_to_manifest": _needs(notes),
             "confirmed": {
                 "demo_exit_without_patch": d0,
